@@ -128,6 +128,8 @@ class C15(Prop):
         self.rec = []
         self.active = False
         self.h_raise = {0: {}, 2: {}}
+        self.rules = []
+        self.nsub = 0
         self.t0 = 0.0
         self.T = 1.0
         owner = self
@@ -226,10 +228,28 @@ class C15(Prop):
             async def handle_event(self, event):
                 if not owner.active or not isinstance(event, core_events.ValueChange):
                     return
-                pid = event.get_port().get_id()
+                idx = getattr(event.get_port(), 'vx_idx', None)
+                if idx is None:
+                    return
                 if not self.vx_faf:
-                    owner.rec.append(('ev', self.vx_idx, int(pid[1:]), canon(event.old_value), canon(event.new_value)))
-                exc = owner.h_raise.get(self.vx_idx, {}).get(int(pid[1:]))
+                    owner.rec.append(('ev', self.vx_idx, idx, canon(event.old_value), canon(event.new_value)))
+                if self.vx_idx == 0 and event.new_value is not None:
+                    # automation rules: a synchronous handler mirrors a source to an actuator and copes with write errors
+                    for src, dst in owner.rules:
+                        if src != idx:
+                            continue
+                        port = core_ports.get(f'p{dst}')
+                        if port is None or getattr(port, 'vx_idx', None) != dst:
+                            continue
+                        k = owner.nsub
+                        owner.nsub += 1
+                        owner.rec.append(('hsub', k, dst, canon(event.new_value)))
+                        try:
+                            await port.transform_and_write_value(event.new_value)
+                            owner.rec.append(('hres', k, 'ok'))
+                        except Exception:
+                            owner.rec.append(('hres', k, 'err'))
+                exc = owner.h_raise.get(self.vx_idx, {}).get(idx)
                 if exc:
                     raise excs[exc]()
 
@@ -292,6 +312,23 @@ class C15(Prop):
             P('src', True, vals=[9, 8, 7, 6, 5, 4, 3, 2, 1], rd={1: R('KeyError')}, hb={0: R('ValueError')}),
             P('src', False, vals=[2, 4, 6, 8, 10, 12, 14, 16, 18]), P('der', False, deps=[3, 1], c=0), P('der', False, deps=[3], c=3)],
             'ops': {}, 'hraise': {}})
+        # 7. a broken port is removed and a healthy port takes its id inside the back-off window (the error set is keyed
+        #    by port identity, the new port is polled at once); same for a healthy port that is replaced
+        for tick, rtick in ((1000, 3), (2000, 2), (500, 9)):
+            f = P('src', True, vals=[5] * 12, rd={2: R('OSError')})
+            f['reborn'] = {'tick': rtick, 'kind': 'src', 'v0': 0, 'vals': [20 + k for k in range(12)]}
+            h = P('src', False, vals=[1, 2, 3, 4, 5, 6, 7, 8, 9, 10, 11, 12])
+            g = P('reg', False, v0=4)
+            g['reborn'] = {'tick': rtick + 1, 'kind': 'reg', 'v0': 9}
+            cases.append({'tick': tick, 'nticks': 12, 'ports': [f, h, P('der', False, deps=[1], c=1), g],
+                          'ops': {}, 'hraise': {}, 'rules': []})
+        # 8. a synchronous handler mirrors healthy sources to a faulty actuator whose writes fail for a while, and to a
+        #    healthy one; API writes go on meanwhile
+        cases.append({'tick': 1000, 'nticks': 8, 'ports': [
+            P('src', False, vals=[1, 2, 3, 4, 5, 6, 7, 8]), P('reg', True, v0=0, wr={1: R('OSError'), 2: R('PortError'), 3: R('PortTimeout')}),
+            P('src', False, vals=[3, 3, 4, 4, 5, 5, 6, 6]), P('reg', False, v0=0), P('der', False, deps=[0, 3], c=100), P('reg', False, v0=7)],
+            'ops': {'2': [['api', 5, 21]], '4': [['api', 5, 41]], '6': [['api', 5, 61]]}, 'hraise': {},
+            'rules': [[0, 1], [2, 3]]})
         return cases
 
     def gen(self, rng, tier):
@@ -378,8 +415,41 @@ class C15(Prop):
         for h in ('0', '2'):
             if rng.random() < 0.5:
                 hraise[h] = {str(i): rng.choice(EXC_NAMES) for i in fidx if rng.random() < 0.7}
-        _ = ticks_per_retry
-        return {'tick': tick, 'nticks': nticks, 'ports': ports, 'ops': ops, 'hraise': hraise}
+        # a port removed and re-created under the same id (new identity), preferably inside a back-off window
+        used = {j for p in ports if p['kind'] == 'der' for j in p['deps']}
+        cands = [i for i, p in enumerate(ports) if p['kind'] != 'der' and i not in used and p['enabled']]
+        if cands and nticks >= 5 and rng.random() < 0.3:
+            fc = [i for i in cands if ports[i]['faulty']]
+            i = rng.choice(fc) if fc and rng.random() < 0.75 else rng.choice(cands)
+            p = ports[i]
+            k = rng.randint(1, nticks - 2)
+            if p['faulty'] and rng.random() < 0.7:
+                r = rng.randint(0, min(3, nticks - 4))
+                p['rd'] = {r: self._rraise(rng)}
+                k = min(nticks - 2, r + 1 + rng.randint(0, max(0, min(4, ticks_per_retry - 2))))
+            kind = rng.choice(['src', 'reg'])
+            rb = {'tick': k, 'kind': kind, 'v0': rng.randint(10, 19)}
+            if kind == 'src':
+                v, vals = rb['v0'], []
+                for _ in range(nticks):
+                    if rng.random() < 0.5:
+                        v = rng.randint(10, 19)
+                    vals.append(v)
+                rb['vals'] = vals
+                rb['v0'] = vals[0]
+            p['reborn'] = rb
+            ops = {t: [o for o in v if o[1] != i] for t, v in ops.items()}
+            ops = {t: v for t, v in ops.items() if v}
+        # automation rules of the synchronous handler: healthy source -> actuator (faulty or healthy), one rule per actuator
+        rules = []
+        if rng.random() < 0.35:
+            srcs = [i for i, p in enumerate(ports) if p['kind'] == 'src' and not p['faulty'] and p['enabled'] and not p.get('reborn')]
+            dsts = [i for i, p in enumerate(ports) if p['kind'] == 'reg' and p['enabled'] and not p.get('reborn')]
+            rng.shuffle(dsts)
+            for d in dsts[:rng.randint(1, 2)]:
+                if srcs:
+                    rules.append([rng.choice(srcs), d])
+        return {'tick': tick, 'nticks': nticks, 'ports': ports, 'ops': ops, 'hraise': hraise, 'rules': rules}
 
     @staticmethod
     def _rraise(rng):
@@ -404,6 +474,9 @@ class C15(Prop):
                 c = copy.deepcopy(case)
                 c['nticks'] = nt
                 c['ops'] = {k: v for k, v in c['ops'].items() if int(k) < nt}
+                for q in c['ports']:
+                    if q.get('reborn') and q['reborn']['tick'] >= nt:
+                        del q['reborn']
                 yield c
         # drop a port (re-index everything)
         for d in range(len(ports)):
@@ -420,6 +493,7 @@ class C15(Prop):
                         ok = False
             c['ops'] = {k: [[o[0], mp[o[1]], o[2]] for o in v if o[1] != d] for k, v in c['ops'].items()}
             c['hraise'] = {h: {str(mp[int(i)]): t for i, t in m.items() if int(i) != d} for h, m in c['hraise'].items()}
+            c['rules'] = [[mp[a], mp[b]] for a, b in c.get('rules', []) if a != d and b != d]
             if ok and any((not p['faulty']) and p['enabled'] for p in c['ports']) and any(p['faulty'] for p in c['ports']):
                 yield c
         # drop API ops, handler faults, parts of the fault scripts
@@ -435,6 +509,20 @@ class C15(Prop):
             c = copy.deepcopy(case)
             c['hraise'] = {}
             yield c
+        if case.get('rules'):
+            c = copy.deepcopy(case)
+            c['rules'] = []
+            yield c
+            for j in range(len(case['rules'])):
+                if len(case['rules']) > 1:
+                    c = copy.deepcopy(case)
+                    del c['rules'][j]
+                    yield c
+        for i, p in enumerate(ports):
+            if p.get('reborn'):
+                c = copy.deepcopy(case)
+                del c['ports'][i]['reborn']
+                yield c
         for i, p in enumerate(ports):
             if not p['faulty']:
                 continue
@@ -466,6 +554,22 @@ class C15(Prop):
         args = [f'$p{j}' for j in p['deps']] + [str(p['c'])]
         return 'ADD(' + ', '.join(args) + ')'
 
+    @staticmethod
+    def _idents(case):
+        """Port identities of a case: the declared ports 0..n-1 and, for a port that is removed and re-created under
+        the same id at mid-tick `reborn.tick`, the new (healthy) identity n+i."""
+        specs = case['ports']
+        n = len(specs)
+        ids = {i: p for i, p in enumerate(specs)}
+        for i, p in enumerate(specs):
+            rb = p.get('reborn')
+            if rb:
+                q = {'kind': rb['kind'], 'faulty': False, 'enabled': True, 'v0': rb['v0'], 'born': rb['tick'], 'of': i}
+                if rb['kind'] == 'src':
+                    q['vals'] = rb['vals']
+                ids[n + i] = q
+        return ids
+
     async def _settle(self, n=80):
         for _ in range(n):
             await asyncio.sleep(0)
@@ -476,13 +580,18 @@ class C15(Prop):
         self.settings.core.tick_interval = case['tick']
         self.T = T
         specs = case['ports']
+        ids = self._idents(case)
+        n = len(specs)
         present = [i for i, p in enumerate(specs) if not (mode == 'B' and p['faulty'])]
         self.rec = []
         self.active = False
         self.h_raise = {0: {}, 2: {}}
+        self.rules = [tuple(r) for r in case.get('rules', [])]
+        self.nsub = 0
         created = await cp.load([{'driver': self.ScriptPort, 'id_': f'p{i}', 'spec': specs[i], 'idx': i} for i in present])
         byidx = dict(zip(present, created))
-        res = {'present': present, 'api': {}, 'samples': [], 'init': {}, 'error': None}
+        res = {'present': present, 'api': {}, 'samples': [], 'init': {}, 'error': None, 'removed': {}}
+        allports = dict(byidx)
         try:
             for i, port in byidx.items():
                 if specs[i]['enabled']:
@@ -516,6 +625,25 @@ class C15(Prop):
             nreq = 0
             for k in range(case['nticks']):
                 await asyncio.sleep(T / 2)
+                for i in range(n):
+                    rb = specs[i].get('reborn')
+                    if not rb or rb['tick'] != k:
+                        continue
+                    if i in byidx:
+                        old = byidx.pop(i)
+                        self.rec.append(('remove', i))
+                        res['removed'][i] = self.loop.time()
+                        old.vx_live = False
+                        await old.remove(persisted_data=False)
+                    new = (await cp.load([{'driver': self.ScriptPort, 'id_': f'p{i}', 'spec': ids[n + i], 'idx': n + i}]))[0]
+                    created.append(new)
+                    new.vx_live = True
+                    await new.enable()
+                    byidx[n + i] = new
+                    allports[n + i] = new
+                    self.rec.append(('create', n + i))
+                    await cm.update()           # in every run, so that when the new port is first polled does not depend on
+                    await self._settle(40)      # the passes other ports' writes happen to cause (timing is outside)
                 for op in case['ops'].get(str(k), []):
                     _, pi, v = op
                     req = nreq
@@ -545,7 +673,7 @@ class C15(Prop):
                     res['api'][req] = (pi, 'hung')
                 else:
                     res['api'][req] = (pi, self._api_result(task))
-            res['reads'] = {i: list(port.vx_reads) for i, port in byidx.items()}
+            res['reads'] = {i: list(port.vx_reads) for i, port in allports.items()}
         finally:
             self.active = False
             try:
@@ -578,24 +706,28 @@ class C15(Prop):
     # ------------------------------------------------------------------------------------------ trace analysis
     @staticmethod
     def _passes(rec):
-        """Split the record into items: ('pass', now, [h/r entries], [ev entries]) and the other entries, in order."""
+        """Split the record into items: ('pass', now, [h/r entries], [ev entries]) and the other entries, in order.
+        A pass does all its reads before it delivers events, and passes are serialised by the update lock, so an event
+        belongs to the latest pass even when something else (a write submitted by a synchronous handler, an evaluation
+        that ran while the pass waited for it) was recorded in between."""
         items = []
-        cur = None
+        cur = None          # the pass still collecting reads
+        last = None         # the latest pass (collects events)
         last_key = -1
         for e in rec:
             if e[0] in ('h', 'r'):
                 key = 2 * e[1] + (0 if e[0] == 'h' else 1)
                 if cur is None or cur[3] or key <= last_key or e[3] != cur[1]:
                     cur = ['pass', e[3], [], []]
+                    last = cur
                     items.append(cur)
                 cur[2].append(e)
                 last_key = key
             elif e[0] == 'ev':
-                if cur is None:
-                    cur = ['pass', None, [], []]      # events without a visible pass: reported by the comparison
-                    items.append(cur)
-                    last_key = -1
-                cur[3].append(e)
+                if last is None:
+                    last = ['pass', None, [], []]      # events without a visible pass: reported by the comparison
+                    items.append(last)
+                last[3].append(e)
             else:
                 cur = None
                 last_key = -1
@@ -604,10 +736,12 @@ class C15(Prop):
 
     def _healthy_view(self, case, run):
         """Observables of the healthy ports in one real run."""
-        specs = case['ports']
-        H = {i for i, p in enumerate(specs) if not p['faulty']}
+        ids = self._idents(case)
+        n = len(case['ports'])
+        H = {i for i, p in ids.items() if not p['faulty']}
         batches, writes, table, polled = [], {i: [] for i in H}, [], []
         reads_in_tick = {i: 0 for i in H}
+        prev = {i for i in H if i < n}
         for it in self._passes(run['rec']):
             if it[0] == 'pass':
                 for e in it[2]:
@@ -619,15 +753,20 @@ class C15(Prop):
             elif it[0] == 'w' and it[1] in H:
                 writes[it[1]].append((it[2], it[3]))
             elif it[0] == 'sample':
-                table.append({i: it[2][i] for i in H})
-                polled.append(dict(reads_in_tick))
+                table.append({i: it[2][i] for i in H if i in it[2]})
+                # only ports that existed during the whole tick have to have been polled in it
+                polled.append({i: reads_in_tick[i] for i in H if i in it[2] and i in prev and ids[i]['enabled']})
+                prev = set(it[2])
                 reads_in_tick = {i: 0 for i in H}
         api = {req: r for req, (pi, r) in run['api'].items() if pi in H}
-        return {'batches': batches, 'writes': writes, 'table': table, 'polled': polled, 'api': api}
+        hres = {e[1]: e[2] for e in run['rec'] if e[0] == 'hres'}
+        hsub = [(e[1], e[2], e[3], hres.get(e[1], 'hung')) for e in run['rec'] if e[0] == 'hsub' and e[2] in H]
+        return {'batches': batches, 'writes': writes, 'table': table, 'polled': polled, 'api': api, 'hsub': hsub}
 
     def _oracle(self, case, runs):
         specs = case['ports']
-        H = [i for i, p in enumerate(specs) if not p['faulty']]
+        ids = self._idents(case)
+        H = sorted(i for i, p in ids.items() if not p['faulty'])
         views = {m: self._healthy_view(case, runs[m]) for m in runs}
         ref = views['B']
         for m in ('A', 'C'):
@@ -635,7 +774,7 @@ class C15(Prop):
             what = 'with the fault schedule' if m == 'A' else 'with the faulty ports present but working'
             for k, (ta, tb) in enumerate(zip(v['table'], ref['table'])):
                 if ta != tb:
-                    d = [f'p{i}: {ta[i]} vs {tb[i]}' for i in H if ta[i] != tb[i]]
+                    d = [f'{self._pname(case, i)}: {ta.get(i, "absent")} vs {tb.get(i, "absent")}' for i in H if ta.get(i, 'absent') != tb.get(i, 'absent')]
                     return Failure('property', f'run {m} ({what}): healthy values at the end of tick {k} differ from the run '
                                    f'without the faulty ports: {", ".join(d)}', real={m: v['table'][k], 'B': ref['table'][k]})
             per_a = {i: [x for b in v['batches'] for x in b if x[0] == i] for i in H}
@@ -655,11 +794,24 @@ class C15(Prop):
             if v['api'] != ref['api']:
                 return Failure('property', f'run {m} ({what}): API write results on healthy ports differ: {v["api"]} vs {ref["api"]}',
                                real=v['api'], model=ref['api'])
+            # per actuator: the order of the events inside one pass (a Python set) decides which rule fires first
+            def per_dst(hs):
+                out = {}
+                for x in hs:
+                    out.setdefault(x[1], []).append(x[2:])
+                return out
+            if per_dst(v['hsub']) != per_dst(ref['hsub']):
+                return Failure('property', f'run {m} ({what}): writes of the synchronous handler to healthy ports differ: '
+                               f'{v["hsub"][:8]} vs {ref["hsub"][:8]}', real=v['hsub'], model=ref['hsub'])
         for m in ('A', 'B', 'C'):
             for k, pl in enumerate(views[m]['polled']):
-                for i in H:
-                    if specs[i]['enabled'] and pl[i] < 1:
-                        return Failure('property', f'run {m}: healthy port p{i} was not polled in tick {k}', real=pl)
+                for i, cnt in pl.items():
+                    if cnt < 1:
+                        return Failure('property', f'run {m}: healthy port {self._pname(case, i)} was not polled in tick {k}', real=pl)
+            for x in views[m]['hsub']:
+                if x[3] != 'ok':
+                    return Failure('property', f'run {m}: write #{x[0]} of the synchronous handler to healthy port p{x[1]} ended {x[3]}',
+                                   real=views[m]['hsub'])
             for req, r in views[m]['api'].items():
                 if r not in ('ok', 'accepted'):
                     return Failure('property', f'run {m}: API write #{req} to a healthy port answered {r}', real=views[m]['api'])
@@ -675,7 +827,11 @@ class C15(Prop):
             reads = a['reads'][i]
             good = a['init'][i][0]
             j = 0
+            gone = a['removed'].get(i)
+            end_i = end if gone is None else min(end, gone - 1e-9)
             for s in samples:
+                if i not in s[2]:
+                    break
                 while j < len(reads) and reads[j][0] <= s[4]:
                     if reads[j][1] == 'ok':
                         good = reads[j][2]
@@ -690,12 +846,12 @@ class C15(Prop):
                     if nxt is not None and nxt - t <= self.retry - 1e-9 and nxt - t < self.retry:
                         return Failure('property', f'faulty port p{i}: read raised at t={t - a["t0"]:.3f} and was retried already at '
                                        f't={nxt - a["t0"]:.3f} (retry interval {self.retry} s)', real=reads[:n + 2][-4:])
-                    due = [x for x in pass_times if x - t > self.retry + 1e-9 and x <= end]
+                    due = [x for x in pass_times if x - t > self.retry + 1e-9 and x <= end_i]
                     if due and (nxt is None or nxt > due[0] + 1e-9):
                         return Failure('property', f'faulty port p{i}: read raised at t={t - a["t0"]:.3f}; it was not read again by the '
                                        f'pass at t={due[0] - a["t0"]:.3f}, after the retry interval', real=reads[n:n + 2])
                 elif o == 'skip':
-                    due = [x for x in pass_times if x > t + 1e-9 and x <= end]
+                    due = [x for x in pass_times if x > t + 1e-9 and x <= end_i]
                     if due and (nxt is None or nxt > due[0] + 1e-9):
                         return Failure('property', f'faulty port p{i}: read was skipped at t={t - a["t0"]:.3f} and not retried by the next pass',
                                        real=reads[n:n + 2])
@@ -703,26 +859,36 @@ class C15(Prop):
             if r == 'hung':
                 return Failure('property', f'API write #{req} to port p{pi} was never answered (a write error must be returned to its submitter)',
                                real=a['api'])
-        # write errors reach the submitter: API requests only go to register ports (no expression), so the driver writes of
-        # such a port are the API requests in submission order
-        queue, wcount = {}, {}
+        for e in a['rec']:
+            if e[0] == 'hsub' and e[1] not in {x[1] for x in a['rec'] if x[0] == 'hres'}:
+                return Failure('property', f'write #{e[1]} of the synchronous handler to port p{e[2]} was never answered: the polling '
+                               f'pass that delivered the event never finished', real=e)
+        # write errors reach the submitter: API requests and handler writes only go to register ports (no expression), so
+        # the driver writes of such a port are those submissions in order
+        hres = {e[1]: e[2] for e in a['rec'] if e[0] == 'hres'}
+        queue = {}
         for e in a['rec']:
             if e[0] == 'api' and a['api'].get(e[1], (None, ''))[1] not in ('err400', 'err404'):
-                queue.setdefault(e[2], []).append(e[1])
-            elif e[0] == 'w' and specs[e[1]]['kind'] == 'reg':
-                widx = wcount.get(e[1], 0)
-                wcount[e[1]] = widx + 1
+                queue.setdefault(e[2], []).append(('API write', e[1]))
+            elif e[0] == 'hsub':
+                queue.setdefault(e[2], []).append(('handler write', e[1]))
+            elif e[0] == 'w' and ids[e[1]]['kind'] == 'reg':
                 if not queue.get(e[1]):
                     continue
-                req = queue[e[1]].pop(0)
-                got = a['api'][req][1]
+                who, req = queue[e[1]].pop(0)
+                got = a['api'][req][1] if who == 'API write' else hres.get(req, 'hung')
                 # which error (504 / 502 / 500) is the API layer's business, not this property's: an error must come back
-                good = got in ('ok', 'accepted') if e[3] == 'ok' else (got.startswith('err5') or got.startswith('exc:'))
+                good = got in ('ok', 'accepted') if e[3] == 'ok' else (got.startswith('err') or got.startswith('exc:'))
                 if not good:
-                    return Failure('property', f'API write #{req} to p{e[1]}: the driver write {"succeeded" if e[3] == "ok" else "raised"} '
-                                   f'but the request was answered {got}: write errors are returned to the submitter',
-                                   real=a['api'])
+                    return Failure('property', f'{who} #{req} to p{e[1]}: the driver write {"succeeded" if e[3] == "ok" else "raised"} '
+                                   f'but the submitter got {got}: write errors are returned to the submitter',
+                                   real={'api': a['api'], 'handler': hres})
         return None
+
+    @staticmethod
+    def _pname(case, i):
+        n = len(case['ports'])
+        return f'p{i}' if i < n else f'p{i - n} (re-created)'
 
     # ------------------------------------------------------------------------------------------ model replay
     def _model(self, case, run, driver, mode):
@@ -740,12 +906,20 @@ class C15(Prop):
                 raise AssertionError(f'model driver refused {line!r}: {rep}')
             return rep[2:].split()
 
+        ids = self._idents(case)
+        nports = len(specs)
         ask(f'begin {int(self.retry * UPS)} {UPS} 2')
         for i in present:
             last, reg = run['init'][i]
             ask(f'port {i} {1 if specs[i]["enabled"] else 0} {fmt(last)} {fmt(reg)}')
             if specs[i]['kind'] == 'der':
                 ask(f'expr {i} {specs[i]["c"]} {",".join(str(j) for j in specs[i]["deps"]) or "-"}')
+        # identities created later: declared last, in creation order (registry order), not existing yet
+        born = sorted((q['born'], i) for i, q in ids.items() if i >= nports)
+        for _, i in born:
+            q = ids[i]
+            ask(f'port {i} 0 n {fmt(q["vals"][0] if q["kind"] == "src" else q["v0"])}')
+        declared = list(present) + [i for _, i in born]
         if mode == 'A':
             for i in present:
                 if specs[i]['faulty']:
@@ -768,9 +942,9 @@ class C15(Prop):
                     return Failure('correspondence', f'run {mode}: value-change events {it[3][:3]} outside any polling pass', real=it[3])
                 k = int((now - t0) / T)
                 if k > slot:
-                    for i in present:
-                        if specs[i]['kind'] == 'src':
-                            vals = specs[i]['vals']
+                    for i in declared:
+                        if ids[i]['kind'] == 'src':
+                            vals = ids[i]['vals']
                             old, new = vals[min(slot, len(vals) - 1)], vals[min(k, len(vals) - 1)]
                             if old != new:
                                 ask(f'set {i} {fmt(new)}')
@@ -809,6 +983,18 @@ class C15(Prop):
                     _, pi, sub, ok = t.split(':')
                     if sub[0] == 'a':
                         api_model[int(sub[1:])] = ok == '1'
+            elif it[0] == 'remove':
+                ask(f'remove {it[1]}')
+            elif it[0] == 'create':
+                ask(f'create {it[1]}')
+                ask('force')                # enable() forces the evaluation of all expressions
+            elif it[0] == 'hsub':
+                ask(f'api {it[2]} {fmt(it[3])} {100000 + it[1]}')
+            elif it[0] == 'hres':
+                m_ok = api_model.get(100000 + it[1])
+                if m_ok is None or m_ok != (it[2] == 'ok'):
+                    return Failure('correspondence', f'run {mode}: write #{it[1]} of the synchronous handler ended {it[2]}; model write '
+                                   f'result: {m_ok}', real=it[2], model=m_ok)
             elif it[0] == 'api':
                 r = idx_api_res.get(it[1], 'hung')
                 if r in ('err400', 'err404'):
@@ -825,7 +1011,7 @@ class C15(Prop):
             elif it[0] == 'sample':
                 # the hub is quiescent here: the model must not be waiting for an evaluation the hub never made
                 for i in present:
-                    if specs[i]['kind'] != 'der':
+                    if specs[i]['kind'] != 'der' or i not in it[2]:
                         continue
                     for _ in range(400):
                         tok = ask(f'eval {i}')[0].split(':')
@@ -839,6 +1025,8 @@ class C15(Prop):
                 for part in body.split(';'):
                     f = part.split(':')
                     i = int(f[0])
+                    if i not in it[2]:
+                        continue            # does not exist (yet / any more)
                     m_last = None if f[2] == 'n' else int(f[2])
                     if m_last != it[2][i]:
                         return Failure('correspondence', f'run {mode}: end of tick {it[1]}: last value of p{i}: real {it[2][i]} model {m_last}',
@@ -854,7 +1042,9 @@ class C15(Prop):
         runs = {}
         for mode in ('A', 'B', 'C'):
             try:
-                runs[mode] = self.loop.run_until_complete(self._real(case, mode))
+                # watchdog: a hub that deadlocks (nothing ready, no timer) must end the case, not hang the harness
+                limit = case['nticks'] * case['tick'] / 1000.0 + 600
+                runs[mode] = self.loop.run_until_complete(asyncio.wait_for(self._real(case, mode), timeout=limit))
             except (Exception, asyncio.CancelledError) as e:
                 import traceback
                 where = traceback.format_exc().strip().splitlines()[-3:]
@@ -897,6 +1087,17 @@ class C15(Prop):
                         tags.add('recovered')
         if any(m for m in case['hraise'].values()):
             tags.add('handler-raise')
+        hres = [e for e in a['rec'] if e[0] == 'hres']
+        if hres:
+            tags.add('sync-handler-write')
+        if any(e[2] == 'err' for e in hres):
+            tags.add('sync-handler-write-error')
+        for i, p in enumerate(specs):
+            if p.get('reborn'):
+                tags.add('port-recreated')
+                t_rm = a['removed'].get(i)
+                if t_rm is not None and any(o == 'raise' and 0 <= t_rm - t <= self.retry for t, o, _ in a.get('reads', {}).get(i, [])):
+                    tags.add('port-recreated-inside-backoff')
         if any(r.startswith('err5') or r.startswith('exc:') for _, r in a['api'].values()):
             tags.add('api-write-error')
         if any(r == 'exc:TypeError' for _, r in a['api'].values()):
